@@ -34,6 +34,7 @@ def main():
             src = open(path).read()
             if src.count(m["old"]) != 1:
                 results.append((m["id"], m["prop"], "STALE", "anchor text occurs %d times" % src.count(m["old"])))
+                print("%-28s %-4s %-18s %s" % results[-1]); sys.stdout.flush()
                 continue
             open(path, "w").write(src.replace(m["old"], m["new"]))
             env = dict(os.environ, PGCAT_REPO=wt, PGCAT_EVIDENCE_DIR=evd)
